@@ -235,7 +235,8 @@ func InstrReachFrom(fn *ssa.Function, after ssa.Instruction, allow EdgeFilter, s
 func Returns(fn *ssa.Function) []*ssa.Return {
 	var out []*ssa.Return
 	for _, b := range fn.Blocks {
-		if len(b.Instrs) == 0 {
+		if len(b.Instrs) == 0 || b == fn.Recover {
+			// the recover block only runs after a recovered panic and returns the (zero) named results
 			continue
 		}
 		if r, ok := b.Instrs[len(b.Instrs)-1].(*ssa.Return); ok {
